@@ -328,14 +328,27 @@ func (s *Store) createNextFileLOCKED() (string, File, error) {
 // removeFileOnClose will setup the callback to wipe out the file safely
 // when all references to it are closed.
 func (s *Store) removeFileOnClose(fref *FileRef) (os.FileInfo, error) {
+	var fileName string
+
 	finfo, err := fref.file.Stat()
-	if err != nil {
-		return nil, err
+	if err == nil {
+		fileName = finfo.Name()
+	} else {
+		// The removal must be scheduled even when Stat() fails (e.g.,
+		// right after the I/O error that made a compaction give up its
+		// new file); otherwise that file, which may already have a
+		// footer, stays and is preferred by the next OpenStore().
+		s.m.Lock()
+		for name, r := range s.fileRefMap {
+			if r == fref {
+				fileName = name
+			}
+		}
+		s.m.Unlock()
 	}
 
-	if len(finfo.Name()) > 0 {
+	if len(fileName) > 0 {
 		fref.OnAfterClose(func() {
-			fileName := finfo.Name()
 			go func() {
 				s.m.Lock()
 				delete(s.fileRefMap, fileName)
@@ -352,7 +365,7 @@ func (s *Store) removeFileOnClose(fref *FileRef) (os.FileInfo, error) {
 		})
 	}
 
-	return finfo, nil
+	return finfo, err
 }
 
 // --------------------------------------------------------
